@@ -261,7 +261,7 @@ impl Link {
 
 /// A message to submit: (sending side, channel id, payload), submitted in list order per side.
 #[derive(Clone, Debug)]
-pub struct Msg { pub side: usize, pub chan: u16, pub data: Vec<u8> }
+pub struct Msg { pub side: usize, pub chan: u16, pub data: Vec<u8>, pub phase: u8 }
 
 pub struct Case {
     pub cfg: [EpCfg; 2],
@@ -302,6 +302,8 @@ pub async fn run_case(c: &Case, port_base: u16) -> Outcome {
     a.start();
     let send_errors = Arc::new(Mutex::new(Vec::<String>::new()));
     let mut senders_started = false;
+    let mut phase1_started = false;
+    let has_phase1 = c.msgs.iter().any(|m| m.phase == 1);
     let mut sender_handles: Vec<tokio::task::JoinHandle<()>> = vec![];
     let mut last_activity = Instant::now();
     let mut connected = false;
@@ -329,10 +331,14 @@ pub async fn run_case(c: &Case, port_base: u16) -> Outcome {
             use rustrtc::transports::sctp::SctpState;
             connected = sa == SctpState::Connected && sb == SctpState::Connected;
         }
-        if connected && !senders_started {
-            senders_started = true;
+        let phase0_quiet = senders_started && sender_handles.iter().all(|h| h.is_finished()) && link.exhausted()
+            && last_activity.elapsed() > c.settle;
+        let start_phase = if connected && !senders_started { Some(0u8) }
+            else if has_phase1 && !phase1_started && phase0_quiet { Some(1u8) } else { None };
+        if let Some(ph) = start_phase {
+            if ph == 0 { senders_started = true; } else { phase1_started = true; last_activity = Instant::now(); }
             for side in 0..2 {
-                let msgs: Vec<Msg> = c.msgs.iter().filter(|m| m.side == side).cloned().collect();
+                let msgs: Vec<Msg> = c.msgs.iter().filter(|m| m.side == side && m.phase == ph).cloned().collect();
                 if msgs.is_empty() { continue; }
                 let sctp = if side == 0 { a.sctp.clone() } else { b.sctp.clone() };
                 let errs = send_errors.clone();
@@ -359,7 +365,7 @@ pub async fn run_case(c: &Case, port_base: u16) -> Outcome {
                 }
             }
         }
-        let senders_done = senders_started && sender_handles.iter().all(|h| h.is_finished());
+        let senders_done = senders_started && (phase1_started || !has_phase1) && sender_handles.iter().all(|h| h.is_finished());
         let all_acked = a.sctp.verif_snapshot().sent_queue.is_empty() && b.sctp.verif_snapshot().sent_queue.is_empty()
             && a.sctp.verif_snapshot().outbound_queue.is_empty() && b.sctp.verif_snapshot().outbound_queue.is_empty();
         if senders_done && delivered >= total_expected && all_acked && link.exhausted() && idle > c.settle { break; }
